@@ -1130,8 +1130,6 @@ func (p *Parser) mergeScopeDirectives(objIndex uint32) parseResult {
 		// relocateNamedObjects passes to resolve things. If however no objects got
 		// relocated in the previous pass then report this as an error.
 		if targetIndex == InvalidIndex {
-			// Give up only if the previous pass made no progress at all: a pass
-			// that merged other Scope directives may have made this one resolvable.
 			if p.resolvePasses > 1 && p.relocatedObjects == 0 && p.prevMergedScopes == 0 && p.mergedScopes == 0 {
 				kfmt.Fprintf(p.errWriter, "[table: %s, offset: 0x%x] unable to resolve reference to scope \"%s\"\n", p.tableName, obj.amlOffset, targetName)
 				return parseResultFailed
@@ -1323,11 +1321,8 @@ func (p *Parser) parseDeferredBlocks(objIndex uint32) parseResult {
 // only operates on non-named objects.
 func (p *Parser) connectNonNamedObjArgs(objIndex uint32) parseResult {
 	var (
-		obj          = p.objTree.ObjectAt(objIndex)
-		argObj       *Object
-		argFlags     pOpArgTypeList
-		argCount     uint8
-		termArgIndex uint8
+		obj    = p.objTree.ObjectAt(objIndex)
+		argObj *Object
 	)
 
 	// The arg list must be visited in reverse order to handle nesting
@@ -1338,38 +1333,46 @@ func (p *Parser) connectNonNamedObjArgs(objIndex uint32) parseResult {
 			return parseResultFailed
 		}
 
-		// Ignore named objects and objects not defined by the table currently parsed
-		if pOpcodeTable[argObj.infoIndex].flags&pOpFlagNamed != 0 || argObj.tableHandle != p.tableHandle {
-			continue
-		}
-
-		// Check if this object's args specify a TermObj/DataRefObj which
-		// would cause the parser to consume any object found till the
-		// enclosing package end.
-		argFlags = pOpcodeTable[argObj.infoIndex].argFlags
-		argCount = argFlags.argCount()
-		for termArgIndex = 0; termArgIndex < argCount; termArgIndex++ {
-			if argType := argFlags.arg(termArgIndex); argType == pArgTypeTermArg || argType == pArgTypeDataRefObj {
-				break
-			}
-		}
-
-		// No term args OR we have parsed beyond the TermArg; assume object has been completely parsed
-		if termArgIndex >= argCount || p.objTree.NumArgs(argObj) > uint32(termArgIndex) {
-			continue
-		}
-
-		// The parser has already attached args [0, termArgIndex) to
-		// the object and has parsed the remaining args as siblings to
-		// the object. Detach the missing args from the sibling list and
-		// attach them to object. The following call may also return back
-		// parseResultRequireExtraPass which is OK at this stage.
-		if p.attachSiblingsAsArgs(obj, argObj, argCount-termArgIndex, true) == parseResultFailed {
+		if p.connectNonNamedObjArgsOf(obj, argObj) == parseResultFailed {
 			return parseResultFailed
 		}
 	}
 
 	return parseResultOk
+}
+
+// connectNonNamedObjArgsOf attaches the siblings that follow the non-named
+// object argObj (a child of obj) as its missing args.
+func (p *Parser) connectNonNamedObjArgsOf(obj, argObj *Object) parseResult {
+	var termArgIndex uint8
+
+	// Ignore named objects and objects not defined by the table currently parsed
+	if pOpcodeTable[argObj.infoIndex].flags&pOpFlagNamed != 0 || argObj.tableHandle != p.tableHandle {
+		return parseResultOk
+	}
+
+	// Check if this object's args specify a TermObj/DataRefObj which
+	// would cause the parser to consume any object found till the
+	// enclosing package end.
+	argFlags := pOpcodeTable[argObj.infoIndex].argFlags
+	argCount := argFlags.argCount()
+	for termArgIndex = 0; termArgIndex < argCount; termArgIndex++ {
+		if argType := argFlags.arg(termArgIndex); argType == pArgTypeTermArg || argType == pArgTypeDataRefObj {
+			break
+		}
+	}
+
+	// No term args OR we have parsed beyond the TermArg; assume object has been completely parsed
+	if termArgIndex >= argCount || p.objTree.NumArgs(argObj) > uint32(termArgIndex) {
+		return parseResultOk
+	}
+
+	// The parser has already attached args [0, termArgIndex) to
+	// the object and has parsed the remaining args as siblings to
+	// the object. Detach the missing args from the sibling list and
+	// attach them to object. The following call may also return back
+	// parseResultRequireExtraPass which is OK at this stage.
+	return p.attachSiblingsAsArgs(obj, argObj, argCount-termArgIndex, true)
 }
 
 // resolveMethodCalls visits each object with the pOpIntNamePathOrMethodCall
@@ -1409,6 +1412,13 @@ func (p *Parser) resolveMethodCalls(objIndex uint32) parseResult {
 		}
 
 		if argObj.opcode != pOpIntNamePathOrMethodCall || argObj.tableHandle != p.tableHandle {
+			// Operators must pick up their operands in the same right-to-left
+			// sweep that hands siblings to method calls: FOOF(Add(1, 2), 3)
+			// appears in the stream as FOOF Add 1 2 Zero 3 and Add has to take
+			// its three operands before FOOF takes its two.
+			if p.connectNonNamedObjArgsOf(obj, argObj) == parseResultFailed {
+				return parseResultFailed
+			}
 			continue
 		}
 
